@@ -272,7 +272,14 @@ def load_known(prop):
         return []
     with open(path) as f:
         data = json.load(f)
-    return [e for e in data.get("findings", []) if e["property"] == prop]
+    entries = list(data.get("findings", []))
+    # development aid only (never set by registered commands): extra entries
+    # from fragment files, so a finding can be tried before it is merged
+    for extra in filter(None, os.environ.get("VERIF_EXTRA_FINDINGS", "").split(":")):
+        with open(extra) as f:
+            d = json.load(f)
+        entries.extend(d.get("findings", []) if isinstance(d, dict) else d)
+    return [e for e in entries if e["property"] == prop]
 
 # }}}
 
